@@ -13,6 +13,8 @@ Tables for C18 (site predicates), regenerated from the imported ural on every ru
       correct (`Re.words`) and compares (table obligations `*_table_ok`), so this extraction
       is *not* trusted;
     - HOMEPAGE_PATHS, HTML_LIKE_EXTENSIONS (sorted), SHOULD_RESOLVE_DOMAINS.
+* Gen/SitesLists.lean — SHORTENER_DOMAINS and YOUTUBE_DOMAINS as Lean data (for the obligation
+  `real_lists_clean`).
 * build/c18_tables_<digest>.json — SHORTENER_DOMAINS, SHOULD_RESOLVE_DOMAINS, YOUTUBE_DOMAINS
   (content-addressed; the native driver reads it once per process and builds the three
   HostnameTrieSets with the model's `add`).
@@ -123,6 +125,11 @@ def _lean_word(word):
     return "[" + ", ".join("none" if c is WILD else "some (Char.ofNat %d)" % c for c in word) + "]"
 
 
+def _wrapped_str_list(xs, per_line=8):
+    rows = [", ".join(lean_str(x) for x in xs[i : i + per_line]) for i in range(0, len(xs), per_line)]
+    return "[\n  " + ",\n  ".join(rows) + "]"
+
+
 @generator
 def gen_sites_tables():
     import importlib
@@ -174,7 +181,21 @@ def gen_sites_tables():
         "/-- `SHOULD_RESOLVE_DOMAINS` (should_resolve.py): added to the shortener domains -/\n"
         "def SHOULD_RESOLVE_DOMAINS : List String := %s\n" % lean_str_list(list(extra))
     )
-    name, content, _ = big_tables()
+    name, content, big = big_tables()
+    # the same three lists as Lean data, for the table obligation `real_lists_clean` of
+    # Props/C18.lean (every listed domain is a canonical spelling: not a special host, unpadded,
+    # lower-case, no xn-- label), which makes the string-level specification of the trie
+    # predicates apply to the REAL lists without hypothesis
+    lists = (
+        "import UralModel.Py.Str\n"
+        "/-! GENERATED by harness/gen_tables/sites.py — do not edit.\n"
+        "SHORTENER_DOMAINS (is_shortened_url.py), YOUTUBE_DOMAINS (youtube.py), in source order,\n"
+        "as found in the imported modules on this run (SHOULD_RESOLVE_DOMAINS is in SitesTables). -/\n"
+        "namespace Ural.Gen.SitesLists\n\n"
+        "def SHORTENER_DOMAINS : List String := %s\n\n"
+        "def YOUTUBE_DOMAINS : List String := %s\n\n"
+        "end Ural.Gen.SitesLists\n"
+    ) % (_wrapped_str_list(big["shorteners"]), _wrapped_str_list(big["youtube"]))
     try:
         for fn in os.listdir(BUILD):
             p = os.path.join(BUILD, fn)
@@ -182,4 +203,4 @@ def gen_sites_tables():
                 os.remove(p)
     except OSError:
         pass
-    return {"SitesTables.lean": pf.render(), name: content}
+    return {"SitesTables.lean": pf.render(), "SitesLists.lean": lists, name: content}
